@@ -2,6 +2,9 @@
 # usage: seed_detect.sh <ID-k> [check ...]   (default check: the property's own, quick tier)
 # Applies /verif/seeded/<ID-k>/patch.diff (and c_patch.diff + rebuild, if present) to /repo, runs the checks, undoes everything, writes detect.json.
 # Never run two of these at the same time, nor while another check reads /repo.
+# include paths are computed here, not inside the module directory (TidalPy/utilities/types.py shadows the stdlib module there)
+NPINC=$(cd /tmp && /venv/bin/python -c "import numpy; print(numpy.get_include())")
+CYRKINC=$(cd /tmp && /venv/bin/python -c "import CyRK, os; d=os.path.dirname(CyRK.__file__); print(' '.join('-I'+os.path.join(d,x) for x in ('', 'cy', 'array', 'utils')))")
 S=$1; shift
 D=/verif/seeded/$S
 PID=$(echo $S | cut -d- -f1)
@@ -19,7 +22,7 @@ if [ -f $D/c_patch.diff ]; then
   done
   patch -p$(grep -m1 '^+++ ' $D/c_patch.diff | grep -q '^+++ b/' && echo 1 || echo 0) -d /repo < $D/c_patch.diff || { echo "c patch failed"; }
   for f in $REBUILT; do
-    (cd /repo/$(dirname $f) && gcc -shared -fPIC -O3 -fopenmp -w -I/root/.pyenv/versions/3.12.1/include/python3.12 -I$(/venv/bin/python -c "import numpy; print(numpy.get_include())") -I/repo -I. $(/venv/bin/python -c "import CyRK, os; d=os.path.dirname(CyRK.__file__); print(' '.join('-I'+os.path.join(d,x) for x in ('', 'cy', 'array', 'utils')))") $(basename $f) -o $(basename ${f%.c}).cpython-312-x86_64-linux-gnu.so)
+    (cd /repo/$(dirname $f) && gcc -shared -fPIC -O3 -fopenmp -w -I/root/.pyenv/versions/3.12.1/include/python3.12 -I$NPINC -I/repo -I. $CYRKINC $(basename $f) -o $(basename ${f%.c}).cpython-312-x86_64-linux-gnu.so)
   done
 fi
 OUT="{\"seed\": \"$S\", \"repo_head\": \"$(git rev-parse --short HEAD)\", \"runs\": ["
